@@ -74,6 +74,9 @@ func mustJSON(v any) json.RawMessage {
 // jobHandlers is filled by each check's init(): kind -> function run inside a worker.
 var jobHandlers = map[string]func(t *testing.T, args json.RawMessage) (any, error){}
 
+// workerMustRecycle is set by a job that leaves something behind that must not live on (a decode that never returns).
+var workerMustRecycle bool
+
 // TestWorker is the worker loop: one JSON job per line on stdin, one JSON result per line on fd 3.
 func TestWorker(t *testing.T) {
 	if os.Getenv("VWORKER") == "" {
@@ -120,7 +123,7 @@ func TestWorker(t *testing.T) {
 			}()
 		}
 		// recycle: leaked goroutines of dead bubbles accumulate in this process
-		res.Bye = n+1 >= maxJobs
+		res.Bye = n+1 >= maxJobs || workerMustRecycle
 		b := mustJSON(res)
 		w.Write(b)
 		w.WriteByte('\n')
